@@ -68,8 +68,36 @@ class Ctx:
     def drive(self, lines):
         return lean_bridge.drive(lines)
 
+    part, parts = 0, 1
+
     def sub_rng(self, *tag):
-        return random.Random(f'{self.prop}:{self.seed}:' + ':'.join(map(str, tag)))
+        return random.Random(f'{self.prop}:{self.seed}:{self.part}/{self.parts}:' + ':'.join(map(str, tag)))
+
+
+def _par_worker(args):
+    func, prop, tier, seed, scale, oracle_only, i, n = args
+    ctx = Ctx(prop, tier, seed)
+    ctx.scale, ctx.oracle_only = scale, oracle_only
+    ctx.part, ctx.parts = i, n
+    ctx.rng = random.Random(f'{prop}:{seed}:part{i}')
+    rep = Report()
+    func(ctx, rep)
+    return rep
+
+
+def parallel(func, ctx, rep, parts=None):
+    """Run `func(ctx_i, rep_i)` in `parts` forked worker processes (each with `ctx_i.part`, `ctx_i.parts` and its own
+    PRNG stream `sub_rng` seeded by part) and merge the reports.  `func` must be a module-level function."""
+    import multiprocessing as mp
+    parts = parts or ctx.workers
+    if parts <= 1:
+        ctx.part, ctx.parts = 0, 1
+        func(ctx, rep)
+        return
+    with mp.get_context('fork').Pool(parts) as pool:
+        for r in pool.imap_unordered(_par_worker, [(func, ctx.prop, ctx.tier, ctx.seed, ctx.scale, ctx.oracle_only, i, parts)
+                                                   for i in range(parts)]):
+            rep.merge(r)
 
 
 def load_known():
